@@ -122,6 +122,17 @@ def vr_length_boundaries(k0: int, k1: int, pad: int, tl: bool) -> bool:
         mark.hit()
         if got != R.expected(recs):
             return False
+        # a stream the caller has already read from (the label peeked at, or read to the end), and the same stream used twice: the same records
+        for consumed in (80, len(data), 7):
+            f = SymFile(data)
+            f.read(consumed)
+            for _again in range(2):
+                with pFile.FileRead(f) as fr:
+                    again = [(fld.lr_is_eflr, fld.lr_type, fld.logical_data.bytes) for fld in fr.iter_logical_records()]
+                    if fr.sul.maximum_record_length != mx:
+                        return False
+                if again != got:
+                    return False
         with pFile.FileRead(SymFile(data)) as fr:
             lab = fr.sul
         return lab.maximum_record_length == mx and lab.storage_unit_sequence_number == 1 and lab.storage_set_identifier == b'Default Storage Set'.ljust(60)
@@ -256,6 +267,16 @@ def _index_and_fetch(recs, i, off, ln, j):
                     ok = True
             if not ok:
                 return False
+    # one index object opened twice (and the stream not at its start the second time): one entry per record both times, same fetch
+    f2 = SymFile(data)
+    idx2 = pIndex.LogicalRecordIndex(f2)
+    for _again in range(2):
+        with idx2 as ix:
+            if len(ix) != len(recs) or ix.visible_record_positions != [layout[k][0] for k in range(len(recs))]:
+                return False
+            if ix.get_file_logical_data(i).logical_data.bytes != exp[i][2]:
+                return False
+        f2.seek(3)
     return True
 
 
